@@ -307,7 +307,7 @@ SPEC = {
     'outside': ['real OS processes', 'MemoryError / KeyboardInterrupt from layer hooks', '-D with a real debugger session (pdb is stubbed: the debugger returns at once)', 'more than 3 layers'],
     'harnesses': [
         {'name': 'stack', 'fn': 'stack', 'params': _P, 'call': _C,
-         'bounds': {'quick': _B + _F2 + ' and not inst and not (x and rep2) and (not pm or (not x and not rep2))', 'thorough': _B + ' and su0 + su1 + su2 + (td0 != 0) + (td1 != 0) + (td2 != 0) <= 3 and (not pm or not x)'},
+         'bounds': {'quick': _B + _F2 + ' and not inst and not (x and rep2) and (not pm or (not x and not rep2 and su0 + su1 + su2 + (td0 != 0) + (td1 != 0) + (td2 != 0) <= 1))', 'thorough': _B + ' and su0 + su1 + su2 + (td0 != 0) + (td1 != 0) + (td2 != 0) <= 3 and (not pm or not x)'},
          'slices': {'quick': _edge_slices(('x', 'not x')),
                     'thorough': _edge_slices(('x and inst', 'x and not inst', 'not x and inst', 'not x and not inst'))},
          'reach': 'stack_reach', 'reach_bounds': {'quick': _B + _F1 + ' and not inst and not x and not rep2 and ht0 and ht1 and ht2',
